@@ -1976,7 +1976,13 @@ func (s *SweepingProvider) individualProvide(prefix bitstr.Key, keys []mh.Multih
 			// Put the key back in the provide queue.
 			s.failedProvide(prefix, keys, fmt.Errorf("individual provide failed for prefix '%s', %w", prefix, err))
 		}
-		if reprovide && err == nil {
+		if reprovide && err == nil && len(coveredPrefix) >= len(prefix) {
+			// Only narrow the schedule here. When the swarm shrank and the lookup
+			// covered a shorter prefix, rescheduling that shorter prefix would
+			// unschedule the sibling regions below it although only this single
+			// key was reprovided: their keys would then wait for the slot of the
+			// shorter prefix, up to a full interval later. Regions are merged by
+			// the region path, which reprovides every key of the covered prefix.
 			prefix = coveredPrefix
 		}
 		provideErr = err
